@@ -84,11 +84,14 @@ def all_props():
 
 
 def load_known():
-    path = os.path.join(VERIF, "known_findings.json")
-    if not os.path.exists(path):
-        return {"findings": [], "fixed": []}
-    with open(path) as f:
-        return json.load(f)
+    """Known findings: known/Cxx.json files (one per property, committed, never written by a check)."""
+    out = {"findings": [], "fixed": []}
+    for path in sorted(glob.glob(os.path.join(VERIF, "known", "C*.json"))):
+        with open(path) as f:
+            d = json.load(f)
+        out["findings"] += d.get("findings", [])
+        out["fixed"] += d.get("fixed", [])
+    return out
 
 
 # ----------------------------------------------------------------------------- Lean side
@@ -689,6 +692,8 @@ def gen_manifest():
     )
     with open(os.path.join(VERIF, "MANIFEST.json"), "w") as f:
         json.dump(man, f, indent=1)
+    with open(os.path.join(VERIF, "known_findings.json"), "w") as f:
+        json.dump(load_known(), f, indent=1)
     print("MANIFEST.json: %d checks, %d not claimed" % (len(checks), len(na)))
     return 0
 
